@@ -127,6 +127,25 @@ CAUGHT = {
  "C02-5": ("C02", "empty_reported_although_committed_records_are_outstanding", "(same mechanism as C02-3)"),
  "C02-6": ("C02", "record_bytes_corrupted, record_lost_duplicated_reordered_or_torn, data_race_*", ""),
  "C02-7": ("C08", "crash:Aborted (std::terminate: QuillError through a noexcept function)", "a Logger.h change: invisible to the queue-level C02 check by construction; caught by the system-level checks that log records larger than the maximum (C08)"),
+ # ---- wave 7 (ids -8 / -9 / -10; six properties; at least two of three need a non-default configuration or a rarely used API)
+ "C06-8": ("C06", "flush_returned_before_other_threads_statement_in_file / flush_returned_before_own_statement_in_file", "(same mechanism as C06-6)"),
+ "C06-9": ("C06", "flush_returned_before_other_threads_statement_written / _in_file", "(same mechanism as C06-3)"),
+ "C06-10": ("C06", "flush_returned_before_other_threads_statement_in_file / flush_returned_before_own_statement_in_file", "(reintroduces what fix f7d567d repaired)"),
+ "C10-8": ("C10", "statements_missing_from_file", "(same mechanism as C10-6)"),
+ "C10-9": ("C10", "wrong_attribution, file_lines_out_of_thread_order", "(a variant of C10-2)"),
+ "C10-10": ("C10", "statements_missing_from_file", "missed at first; caught after a new fault kind: the log file is deleted under a FileSink whose after_open callback throws at the re-open"),
+ "C14-8": ("C14", "statement_lost after_append_restart=1", ""),
+ "C14-9": ("C14", "file_exceeds_size_limit, statement_lost", "missed at first; caught after the rotation harness also created RotatingFileSinks with FileEventNotifier callbacks"),
+ "C14-10": ("C14", "statement_lost after_append_restart=0 naming=index", "(same mechanism as C14-6)"),
+ "C15-8": ("C15", "statement_appended_to_the_file_open_before_a_rotation_point, statements_separated_without_a_rotation_point (hourly, zones with half-hour offsets)", ""),
+ "C15-9": ("C15", "statement_lost after_append_restart=0 naming=index", "(same mechanism as C14-6)"),
+ "C15-10": ("C15", "statement_appended_to_the_file_open_before_a_rotation_point, file_exceeds_size_limit", "missed at first; caught after the rotation harness also created RotatingFileSinks with FileEventNotifier callbacks"),
+ "C16-8": ("C16", "delivered_to_a_sink_whose_threshold_or_filter_rejects_it", ""),
+ "C16-9": ("C16", "wrong_attribution", "(same mechanism as C16-2)"),
+ "C16-10": ("C16", "accepted_or_arguments_evaluated_below_logger_level", "(same mechanism as C16-5)"),
+ "C17-8": ("C17", "sink_lookup_not_idempotent", "(same mechanism as C17-6)"),
+ "C17-9": ("C17", "blocking_removal_never_returns, crash:Segmentation_fault", "(a variant of C17-5)"),
+ "C17-10": ("C17", "blocking_removal_never_returns (also C08: control_request_never_returns)", ""),
  "C07-2": ("C07", "handler_notice_missing, statement_of_signalled_thread_missing, wrong_exit_status", "missed at first; caught after a second delivery of the same signal to another thread was added to C07 programs (and pause() interposed)"),
  "C11-1": ("C11", "steady_state_log_call_allocated typed_site=144/145/146", "missed at first; caught after call sites with more than twelve string values in one statement were added"),
  "C11-2": ("C11", "steady_state_log_call_allocated typed_site=130", ""),
